@@ -1,1 +1,13 @@
--- stub: no theorems of C10 yet
+import WmModel.Props.C10Old
+import WmModel.Props.C10SelfClose
+#print axioms Wm.RouterLife.running_after_all_subscribed
+#print axioms Wm.RouterLife.runhandlers_once
+#print axioms Wm.RouterLife.started_implies_stoppable
+#print axioms Wm.RouterLife.stop_isolated
+#print axioms Wm.RouterLife.stop_ends_handler
+#print axioms Wm.RouterLife.second_run_errors
+#print axioms Wm.RouterLife.Old.started_before_stopfn_witness
+#print axioms Wm.RouterLife.Old.watcher_lost_wakeup_witness
+#print axioms Wm.RouterLife.self_close_progress
+#print axioms Wm.RouterLife.run_returned_means_closed
+#print axioms Wm.RouterLife.cancel_winds_handlers_down
